@@ -455,8 +455,50 @@ def check_join_mirror(ctx, db):
     ctx.require('R-MIRROR join arms', n, 4)
 
 
+def check_cap_indices(ctx, db):
+    """R-INDEX: FlexPath::to_polygons walks the spine once; before that walk (initial cap) every half-width it reads belongs to the
+    first or second spine point (entries 0 and 2 of the interleaved width/offset pairs), after it (final cap) to the last or the one
+    before (entries 2(n-1) and 2(n-2)), as linear forms through named locals. A final cap sized with the first point's width shows on
+    every tapering path."""
+    from .. import linear
+    f = db.fn('gdstk::FlexPath::to_polygons')
+    ctx.touch(f)
+    subs = [x for x in f.walk() if x.k == 'ArraySubscriptExpr' and norm(((x.child('base') or x.c[0]).text())) == 'half_widths']
+    cands = []
+    for l in f.walk():
+        if l.k != 'ForStmt' or l.child('init') is None:
+            continue
+        ivs = {v.d for v in l.child('init').walk() if v.k == 'VarDecl'}
+        if any(any(y.k == 'DeclRefExpr' and y.d in ivs for y in (x.child('idx') or x.c[1]).walk()) for x in subs if any(z is x for z in l.walk())):
+            cands.append(l)
+    if not cands:
+        raise AnalysisBroken('FlexPath::to_polygons: spine walk (loop indexing half_widths by its own variable) not found')
+    walk = max(cands, key=lambda l: sum(1 for _ in l.walk()))
+    lo, hi = walk.pos, max(n.pos for n in walk.walk())
+    n = 0
+    bad = []
+    for x in subs:
+        if lo <= x.pos <= hi:
+            continue
+        n += 1
+        li = linear.lin_of(f, x.child('idx') or x.c[1], x)
+        clean = {k_: v_ for k_, v_ in (li or {}).items() if v_ != 0}
+        syms = [k_ for k_ in clean if k_ != 1]
+        if x.pos < lo:
+            ok = not syms and clean.get(1, 0) in (0, 2)
+            want = 'entry 0 or 2 (first / second spine point)'
+        else:
+            ok = len(syms) == 1 and str(syms[0]).endswith('.count') and clean[syms[0]] == 2 and clean.get(1, 0) in (-2, -4)
+            want = 'entry 2(n-1) or 2(n-2) (last / last but one spine point)'
+        if not ok:
+            bad.append('%s: `%s` is %s, expected %s' % (x.loc(), norm(x.text())[:50], clean, want))
+    ctx.check(not bad, 'R-INDEX', 'FlexPath::to_polygons/cap-widths', f.loc(), 'the %d half-width reads outside the spine walk use the end they belong to' % n, '; '.join(bad[:3]))
+    ctx.require('R-INDEX cap width reads', n, 20)
+
+
 def run(ctx):
     db = ctx.db
+    ctx.attempt(check_cap_indices, ctx, db)
     ctx.attempt(check_side_symmetry, ctx, db)
     ctx.attempt(check_join_mirror, ctx, db)
     ctx.attempt(check_bookkeeping, ctx, db)
@@ -465,6 +507,8 @@ def run(ctx):
     ctx.attempt(check_bounds, ctx, db)
     ctx.attempt(check_siblings, ctx, db)
     ctx.attempt(check_dimensions, ctx, db)
+    from . import C03   # a simple path saved as GDSII PATH records: well-formed records, XY chunks that continue where the previous one ended
+    ctx.attempt(C03.check_writers, ctx, db, only={'gdstk::FlexPath::to_gds'})
     from . import C02   # the OASIS PATH extension scheme written for a simple path announces exactly the extensions that follow
     ctx.attempt(C02.check_path_extensions, ctx, db)
 
